@@ -19,9 +19,9 @@ import (
 // chunkReader delivers the input in the given chunk lengths (the rest in one piece), then io.EOF.
 // eofWithLast=true returns io.EOF together with the last chunk.
 type chunkReader struct {
-	data   []byte
-	chunks []int
-	ci     int
+	data        []byte
+	chunks      []int
+	ci          int
 	eofWithLast bool
 }
 
@@ -153,13 +153,13 @@ func (h *buildHandler) val(v any) {
 		h.err = e
 	}
 }
-func (h *buildHandler) Null()            { h.val(nil) }
-func (h *buildHandler) Bool(b bool)      { h.val(b) }
-func (h *buildHandler) Int(i int64)      { h.val(i) }
-func (h *buildHandler) Float(f float64)  { h.val(f) }
-func (h *buildHandler) Number(s string)  { h.val(jsonNumber(s)) }
-func (h *buildHandler) String(s string)  { h.val(s) }
-func (h *buildHandler) Key(s string)     { h.key = &s }
+func (h *buildHandler) Null()           { h.val(nil) }
+func (h *buildHandler) Bool(b bool)     { h.val(b) }
+func (h *buildHandler) Int(i int64)     { h.val(i) }
+func (h *buildHandler) Float(f float64) { h.val(f) }
+func (h *buildHandler) Number(s string) { h.val(jsonNumber(s)) }
+func (h *buildHandler) String(s string) { h.val(s) }
+func (h *buildHandler) Key(s string)    { h.key = &s }
 func (h *buildHandler) ObjectStart() {
 	if h.depth == 0 {
 		h.b.Reset()
@@ -216,8 +216,8 @@ func (v *Variant) Opts() string {
 
 // recReader records the size of every Read result so that the model can be given the same buffers.
 type recReader struct {
-	r    io.Reader
-	got  *[]int
+	r   io.Reader
+	got *[]int
 }
 
 func (r *recReader) Read(p []byte) (int, error) {
